@@ -20,6 +20,7 @@ func main() {
 	evidence := flag.String("evidence", "", "where to write the correspondence evidence")
 	replayDir := flag.String("replaydir", "/verif/replays", "where replay files go")
 	replay := flag.String("replay", "", "replay file to re-execute")
+	known := flag.String("known", "/verif/known_findings.json", "known findings file")
 	flag.Parse()
 	if s := os.Getenv("VERIF_SEED"); s != "" && !isFlagSet("seed") {
 		if n, err := strconv.ParseInt(s, 10, 64); err == nil {
@@ -44,6 +45,7 @@ func main() {
 		os.Exit(2)
 	}
 	c := NewCtx(*prop, *tier, *seed, *driver, scratch, *replayDir)
+	c.KnownPath = *known
 	fn(c)
 	if *evidence != "" {
 		c.WriteEvidence(*evidence)
